@@ -12,7 +12,8 @@ Rotator part (wannierberri/symmetry/orbitals.py: OrbitalRotator, Orbitals.rot_or
     rotations are counted ``outside_domain`` (no implementation can return an orthogonal matrix there);
   * local bases basis1/basis2 (also improper ones), ';'-separated shells;
   * a fresh rotator per composition test, and a rotator shared by all calls of the case (exact repeats in shuffled
-    order, the ``irot=`` call form, and rotations 1e-7 away from a cached one) to exercise the 1e-4-tolerance cache.
+    order, the ``irot=`` call form, rotations 1e-9 ... 1e-2 away from a cached one, and an N-fold power of a small rotation
+    asked after the identity): the cache must return the matrix of the rotation asked for, whatever was asked before.
 Dwann part (wannierberri/symmetry/Dwann.py, projections.py: Projection -> positions, basis_list)
   * atommap / T = independently computed images of the centres (p -> g p, T = orbit[p'] - g p);
   * every block of get_on_points = exp(2 pi i (g k).T) * oracle matrix (x) spinor matrix (irrep's SU(2) matrix, i sigma_y K for
@@ -199,10 +200,6 @@ def rotator_case(ctx, rng, idx, state):
     for k in rng.permutation(len(calls))[:3]:
         shell, R, b1, b2, Dfresh = calls[int(k)]
         Reff = R if b1 is None else b2 @ R @ b1.T
-        dR = gg.rodrigues(2 * np.pi / 1e-7, rng.normal(size=3))
-        Ds = np.array(shared(shell, rot_cart=dR @ Reff))
-        ctx.close("OrbitalRotator[shared_cache]:near_duplicate_rotation", Ds, Dfresh, rtol=1e-5, scale=1.0, what=shell,
-                  witness=dict(shell=shell, R=Reff, **wit))
         irot = shared.calcualted_matrices.index_or_None(Reff)
         if irot is None:
             ctx.violation("OrbitalRotator[shared_cache]:rotation_not_cached", f"{shell}", dict(shell=shell, R=Reff, **wit))
@@ -210,7 +207,32 @@ def rotator_case(ctx, rng, idx, state):
             Di = np.array(shared(shell, irot=irot))
             ctx.close("OrbitalRotator[shared_cache]!=fresh_rotator", Di, Dfresh, rtol=1e-12, scale=1.0, what=shell + " irot=",
                       witness=dict(shell=shell, R=Reff, irot=irot, **wit))
-        ctx.count("shared_rotator_near_duplicates")
+        ctx.count("shared_rotator_irot_calls")
+    # ---- history on the shared rotator: rotations close to ones it has already seen must still get *their own* matrix (full shells:
+    #      every rotation is in the domain).  Distances from rounding level to 1e-2, both orders (neighbour first / cached first).
+    for shell in [sh for sh in dict.fromkeys(c[0] for c in calls) if sh in oo.FULL_SHELLS][:1]:
+        seen = [c for c in calls if c[0] == shell and c[2] is None]
+        for delta in (1e-9, 1e-6, 3e-5, 3e-4, 3e-3, 1e-2):
+            R0 = seen[int(rng.integers(len(seen)))][1] if rng.random() < 0.7 else np.eye(3)
+            np.array(shared(shell, rot_cart=R0))
+            Rn = gg.rodrigues(2 * np.pi / (delta * rng.uniform(0.5, 1.0)), rng.normal(size=3)) @ R0
+            Dn = np.array(shared(shell, rot_cart=Rn))
+            check_matrix(ctx, shell, Rn, Dn, dict(history="neighbour_of_a_cached_rotation", distance=delta, **wit), tag=",shared_cache_history")
+            ctx.count("shared_rotator_near_duplicates")
+        # composition through the shared rotator: a small rotation asked after the identity, N-fold power against D(r^N)
+        ang = float(10 ** rng.uniform(-5, -2))
+        ax = rng.normal(size=3)
+        N = int(min(0.5 / ang, 4000))
+        r = gg.rodrigues(2 * np.pi / ang, ax)
+        np.array(shared(shell, rot_cart=np.eye(3)))
+        Dr = np.array(shared(shell, rot_cart=r))
+        DrN = np.array(shared(shell, rot_cart=gg.rodrigues(2 * np.pi / (ang * N), ax)))
+        ctx.close("OrbitalRotator[shared_cache_history]:D(r)^N!=D(r^N)", np.linalg.matrix_power(Dr, N), DrN, rtol=1e-7, scale=1.0, what=shell,
+                  witness=dict(shell=shell, angle=ang, N=N, axis=ax, **wit))
+        E = np.array(shared(shell, rot_cart=np.eye(3)))
+        ctx.close("OrbitalRotator:identity_not_mapped_to_identity", E, np.eye(oo.num_orbitals(shell)), rtol=TOL, scale=1.0,
+                  what=shell + " (identity asked after a neighbouring rotation)", witness=dict(shell=shell, **wit))
+        ctx.count("shared_rotator_power_history")
     ctx.sample(wit)
 
 
@@ -444,7 +466,7 @@ if __name__ == "__main__":
                      "rotations that do not leave a hybrid span invariant are outside the property's domain"],
         required_counters=("rotator_calls", "p_shell_convention", "composition_full", "composition_hybrid", "in_domain_full",
                            "in_domain_hybrid", "outside_domain", "improper_rotation", "local_bases_in_domain",
-                           "identity_checked", "shared_rotator_calls", "shared_rotator_near_duplicates",
+                           "identity_checked", "shared_rotator_calls", "shared_rotator_near_duplicates", "shared_rotator_power_history",
                            "shell_s", "shell_p", "shell_d", "shell_f", "dwann_built", "dwann_matrices", "dwann_compositions",
                            "dwann_nonzero_T", "dwann_spinor", "dwann_with_TR", "dwann_nontrivial_orbital", "dwann_multi_site",
                            "dwann_compositions_with_lattice_shift", "dwann_compositions_antiunitary_left"),
